@@ -74,6 +74,9 @@ class Case:
         self.events = 0
         self.trace = []
         self.hb = 100
+        # identities are compared without regard to case: in every third history the peers spell their Origin-Host
+        # with capitals (a function of the history, so that a replay does the same)
+        self.caps = h64("caps", start, tuple(script)) % 3 == 0
 
     def witness(self, key, detail):
         rp = {"start": self.start, "script": self.script}
@@ -123,7 +126,10 @@ class Case:
             hbh, e2e = self.ids()
             name = g.cer_name if a != "cer_unknown" else "stranger.verif.example"
             auth, acct = ([4], [3]) if a != "cer_nocommon" else ([999], [])
-            g.sp.send(M.cer(name, self.REALM, auth=auth, acct=acct, hbh=hbh, e2e=e2e))
+            spelled = ".".join(x.capitalize() for x in name.split(".")) if self.caps else name
+            if self.caps:
+                self.run.cov["cer_with_capitals"] = self.run.cov.get("cer_with_capitals", 0) + 1
+            g.sp.send(M.cer(spelled, self.REALM, auth=auth, acct=acct, hbh=hbh, e2e=e2e))
             g.cer_sent = True
             g.pending_cer = (hbh, e2e, name)
         elif a in ("cea_ok", "cea_rej"):
